@@ -43,7 +43,7 @@ def stable_hash(obj):
 
 def jsonable(x, depth=0):
     """Best-effort conversion of witnesses to JSON (bytes, tuples, sets, exceptions)."""
-    if depth > 12:
+    if depth > 60:
         return repr(x)[:200]
     if isinstance(x, (str, int, float, bool)) or x is None:
         if isinstance(x, float) and (x != x or x in (float("inf"), float("-inf"))):
